@@ -152,7 +152,14 @@ Definition hold_carriers : list string := ["MutexRef"; "RwLockReadRef"; "RwLockW
 Definition k6 : bool :=
   forallb (fun c => negb (has_impl c "Clone") && negb (has_impl c "Copy") && negb (has_impl c "Default")) hold_carriers.
 
-Definition wf_key_known : bool := k1 && k2 && k3 && k4 && k6.  (* everything but the known finding F4 *)
+(* K7: a lock hands `&mut` to its payload to whichever thread locks it, so a lock that is shared between threads moves its
+   payload between them: no lock type is Sync for a payload that is Sync but not Send — which is what a ThreadKey (and every
+   guard that carries one) is.  Otherwise `RwLock<Option<ThreadKey>>` shared by reference lets another thread take the key. *)
+Definition k7 : bool :=
+  forallb (fun c => forallb (fun rf => negb (impl_auto auto_rules rf MSync (TCon c (TPay false true)))) all_flags)
+          ["Mutex"; "RwLock"].
+
+Definition wf_key_known : bool := k1 && k2 && k3 && k4 && k6 && k7.  (* everything but the known finding F4 *)
 Definition wf_key : bool := wf_key_known && k5.
 
 (* ---------------------------------------------------------------- C15: data confinement, as decidable conditions *)
@@ -225,7 +232,11 @@ Definition e5 : bool :=
                     forallb (fun f => negb (String.eqb (fn_owner f) c && safe_public f && fn_mut_self f &&
                                             negb (String.eqb (fn_trait f) "Drop"))) fns) cache_types.
 
-Definition wf_data_known : bool := e1 && e2 && e3 && e5.       (* everything but the known finding F5 *)
+(* E6: no lock, collection, guard or hold carrier has a public field: a public field of a guard is assignable through
+   `&mut` (which collection and poison guards hand out), so the guard could be pointed at a lock that was never acquired *)
+Definition e6 : bool := is_nil_str public_fields && negb key_has_public_field.
+
+Definition wf_data_known : bool := e1 && e2 && e3 && e5 && e6. (* everything but the known finding F5 *)
 Definition wf_data : bool := wf_data_known && e4.
 
 (* ---------------------------------------------------------------- a grid of concrete types, for counterexample search *)
